@@ -1,4 +1,5 @@
 from rules import shared as S
+from rules import late as L
 
 DOC = {'explanation': 'C11 structural clauses (see DESIGN.md section 5)', 'decided': [], 'not_decided': []}
 
@@ -29,3 +30,4 @@ def rules(ctx):
     S.survey3_rules(ctx)
     S.own_growth_rules(ctx)
     S.round5_rules(ctx)
+    L.round7_rules(ctx)
